@@ -13,6 +13,7 @@ def build_image(rng, hostile=0, cycles=False, focus=None):
     n = 1760 if kind == "dd" else 3520 if kind == "hd" else rng.choice([3600, 3601, 4001, 4066, 8000, 8001, 8131])
     img = iw.Image(nblocks=n, ffs=ffs, intl=intl, dirc=dirc, rng=rng, placement=rng.choice(["random", "sequential"]),
                    chain_order=rng.choice(["random", "reverse", "append"]), garbage=rng.random() < 0.7, amiga_root=(kind == "hdf"))
+    img.want_block2 = (not hostile and not cycles and rng.random() < 0.5)
     kids = iw.random_tree(rng, intl=intl or dirc, links=rng.random() < 0.5, dbs=img.dbs, nfiles=rng.randint(1, 9), ndirs=rng.randint(0, 5),
                           maxsize=60000 if kind == "dd" else 120000, fill488=(dirc and not hostile and not cycles and rng.random() < 0.5),
                           collide=(not hostile and not cycles and rng.random() < 0.5))
